@@ -40,6 +40,9 @@ def ray_law(ray, origin, area):
     return None
 
 
+_LAST = [None]
+
+
 def judge_fan(area, origin, which='fancy'):
     a = Area(*area)
     pos = Position(*origin)
@@ -61,7 +64,8 @@ def judge_fan(area, origin, which='fancy'):
     if which == 'fancy' and covered != want:
         return n, f'fan misses cells {sorted(want - covered)[:6]}'
     as_t = lambda rs: tuple(tuple(p.yx for p in r) for r in rs)  # noqa: E731
-    if as_t(rays) != as_t(rays2):
+    _LAST[0] = as_t(rays)
+    if _LAST[0] != as_t(rays2):
         return n, 'two computations of the same fan differ'
     cached = (RT.cached_compute_rays_fancy if which == 'fancy' else RT.cached_compute_rays)(pos, a)
     if as_t(cached) != as_t(rays):
@@ -98,8 +102,11 @@ def _work(job):
     n = fans = 0
     fails = []
     done = []
+    first = {}
     for area, origin in items:
+        _LAST[0] = None
         k, m = judge_fan(area, origin, which)
+        first[(area, origin)] = _LAST[0]
         n += k
         fans += 1
         done.append((area, origin))
@@ -107,10 +114,35 @@ def _work(job):
             fails.append({'kind': 'fan', 'area': area, 'origin': origin, 'which': which, 'history': list(done),
                           'message': f'{which} fan, area {area}, origin {origin}: {m}', 'sig': {'fn': which},
                           'simplicity': (area[0][1] - area[0][0] + 1) * (area[1][1] - area[1][0] + 1)})
+    # second pass: every query of this job again, oldest first (more than 128 distinct queries have been made in between for
+    # the larger jobs): the cached answer must still be the uncached one
+    if which == 'fancy':
+        for area, origin in items:
+            if first.get((area, origin)) is None:
+                continue
+            again = tuple(tuple(p.yx for p in r) for r in RT.cached_compute_rays_fancy(Position(*origin), Area(*area)))
+            n += 1
+            if again != first[(area, origin)] and len(fails) < 3:
+                fails.append({'kind': 'fan', 'area': area, 'origin': origin, 'which': which, 'history': list(done) + [(a, o) for a, o in items],
+                              'message': f'cached fan for area {area}, origin {origin} differs from the uncached one when asked again after '
+                              f'{len(items)} other queries', 'sig': {'fn': 'cache_second_pass'}, 'simplicity': 0})
+                break
     return n, fans, fails
 
 
+def judge_large_floor(h, w):
+    """an unobstructed ray-traced view shows everything - also for view sizes with 128 / 256 / 512 rays"""
+    for origin in ((h - 1, w // 2), (0, 0), (h // 2, w // 2)):
+        vis = np.asarray(VF['raytracing'](Grid.from_shape((h, w)), Position(*origin)))
+        if vis.shape != (h, w) or not vis.all():
+            hidden = [(int(y), int(x)) for y, x in zip(*np.where(~vis))][:4]
+            return f'unobstructed {h}x{w} ray-traced view from {origin} does not show cells {hidden}'
+    return None
+
+
 def replay(case):
+    if case['kind'] == 'large_floor':
+        return judge_large_floor(case['h'], case['w'])
     if case['kind'] == 'fan_history':
         msg = None
         for area, origin in case['history']:
@@ -149,6 +181,10 @@ def run(rep, tier, seed):
         rn += n
         fans += f
         fails.extend(fl)
+    for h, w in ((15, 15), (7, 31), (31, 7), (3, 63), (1, 127), (1, 255), (15, 31), (9, 12)):
+        m = judge_large_floor(h, w)
+        if m:
+            fails.append({'kind': 'large_floor', 'h': h, 'w': w, 'message': m, 'sig': {'fn': 'raytracing_all_floor'}, 'simplicity': 0})
     seqs = [list(seq) for d in range(1, 5) for seq in itertools.product(range(len(QUERIES)), repeat=d)]
     hn = len(seqs)
 
